@@ -75,6 +75,8 @@ def features(tree):
                 tags.add('lone_fvalue')
             if isinstance(_leftmost(node.value), (ast.Dict, ast.Set, ast.DictComp, ast.SetComp)):
                 tags.add('fstr_lbrace')
+        if isinstance(node, ast.JoinedStr) and not node.values:
+            tags.add('empty_joinedstr')
         if isinstance(node, ast.JoinedStr):
             body = []
             exprs = []
